@@ -1360,6 +1360,9 @@ func (n *RegexNode) reduceSingleLetterAndNestedAlternations() {
 				if prev.Options&IgnoreCase != 0 {
 					prev.Options &= ^IgnoreCase
 				}
+				// adding members may have normalised the merged set to a negated form:
+				// nothing more can be merged into it then
+				lastNodeCannotMerge = !prevCharClass.IsMergeable()
 			} else if at.T == NtNothing {
 				j--
 			} else {
